@@ -387,7 +387,7 @@ SPEC = PropSpec(
     pid="C14",
     title="Bit consumption is accounted for; over-reads are never delivered as clean data",
     check=check,
-    floors={"R14.1": 6, "R14.2": 4, "R14.3": 2, "R14.4": 6},
+    floors={"R14.1": 2, "R14.2": 2, "R14.3": 2, "R14.4": 6},
     fallback={"R14.1": ("R14.4",)},
     explanation=("R14.1: forward must-facts over the CFG of each RawPacketData method that advances the cursor: at every "
                  "`self.pos += n` the facts `8*len(self) - pos - n >= 0` and `n >= 0` must have been established by "
